@@ -13,9 +13,18 @@ insertion (checked and unchecked) and update_variable_number; after every step t
 variable count, the group offsets, the clause list and the label list are compared,
 and the property itself is evaluated on the implementation (name of variable i =
 label of its group for its index / default name; new identifiers above every
-variable mentioned so far)."""
+variable mentioned so far).
+
+Large streams (notes/LARGE_STREAMS.md), run first as a corpus: groups created after 255..1000 anonymous
+variables (identifiers beyond 256/257), new_mapping(n, m) with m in 128/129/130/300, edge groups of
+bipartite / sparse / simple / directed graphs with a hub of degree 129/130 on either side whose edges
+were inserted in random order before the group is created (every index -> id -> index round trip,
+wildcard patterns through the hubs must enumerate in identifier order), blocks / words / binary
+mappings whose sizes sit on 16/17, 128/129, 256/257, singleton variables at identifiers 256..1001,
+and histories that mix such groups with raises of the variable count."""
 import io
 import itertools
+import random
 
 from lib import cmd, Sym, is_error, import_impl
 
@@ -319,8 +328,9 @@ def patterns_for(rng, sh, valid, count):
     return pats
 
 
-def run_groups(ctx, F_classes, ncases):
-    rng = ctx.rng
+def run_groups(ctx, F_classes, ncases, given=None, rng=None, stream='groups'):
+    """given: list of (shape, offset, extra wildcard patterns) run instead of random shapes (the large corpus)"""
+    rng = rng or ctx.rng
     cases = []
     reqs = []
 
@@ -328,17 +338,39 @@ def run_groups(ctx, F_classes, ncases):
         reqs.append(r)
         return len(reqs) - 1
 
-    for ci in range(ncases):
-        sh = rand_shape(rng, ctx.tier)
+    for ci in range(ncases if given is None else len(given)):
+        extra_patterns = []
+        if given is None:
+            sh = rand_shape(rng, ctx.tier)
+        else:
+            sh, goff, extra_patterns = given[ci]
         cname, C = F_classes[ci % 2]
         pieces = rand_fmt(rng, arity_of(sh), allow_too_many=(sh['kind'] != 'binmap'))
         if sh['kind'] == 'single':
             pieces = [rand_piece(rng) or 'X']
         off = rng.choice([0, 0, 1, 3, 7, rng.randint(0, 40)])
+        if given is not None:
+            off = goff
+            # a large case is never spent on a label with the wrong number of placeholders (creation would be refused)
+            if sh['kind'] != 'single':
+                pieces = [rand_piece(rng) for _ in range(arity_of(sh) + 1)]
+            if rng.random() < 0.7:
+                pieces = {0: pieces, 1: ['p_{', '}'], 2: ['e(', ',', ')']}.get(arity_of(sh), pieces)
         descr = dict(cls=cname, shape=sh, label_pieces=pieces, label=py_fmt(pieces), anonymous_before=off)
-        ctx.tally('group kind', sh['kind'] + ('/' + sh['wordtype'] if sh['kind'] == 'words' else ''))
-        ctx.tally('offset', off if off < 8 else '8+')
-        case = dict(descr=descr, sh=sh, off=off, pieces=pieces)
+        if given is None:
+            ctx.tally('group kind', sh['kind'] + ('/' + sh['wordtype'] if sh['kind'] == 'words' else ''))
+            ctx.tally('offset', off if off < 8 else '8+')
+        else:
+            ctx.tally('large: group kind', sh['kind'] + ('/' + sh['wordtype'] if sh['kind'] == 'words' else ''))
+            ctx.tally('large: anonymous variables before the group', off)
+            if 'edges' in sh:
+                deg = {}
+                for e in sh['edges']:
+                    deg[('l', e[0])] = deg.get(('l', e[0]), 0) + 1
+                    deg[('r', e[1])] = deg.get(('r', e[1]), 0) + 1
+                ctx.tally('large: longest adjacency list', max(list(deg.values()) + [0]))
+                ctx.tally('large: edges inserted in sorted order', sh['edges'] == sorted(sh['edges']))
+        case = dict(descr=descr, sh=sh, off=off, pieces=pieces, stream=stream)
         cases.append(case)
         case['q_describe'] = ask(cmd('group_describe', False, group_sx(sh, pieces), off))
         case['q_describe_fixed'] = ask(cmd('group_describe', True, group_sx(sh, pieces), off))
@@ -354,7 +386,10 @@ def run_groups(ctx, F_classes, ncases):
             case['created'] = ('exc', exc_class(e), str(e)[:160])
             continue
         n = len(g)
-        ctx.tally('group size', n if n < 10 else ('10-49' if n < 50 else '50+'))
+        if given is None:
+            ctx.tally('group size', n if n < 10 else ('10-49' if n < 50 else '50+'))
+        else:
+            ctx.tally('large: group size', n)
         case['size'] = n
         case['ids'] = list(g.ids)
         case['numvar'] = F.number_of_variables()
@@ -379,10 +414,15 @@ def run_groups(ctx, F_classes, ncases):
         back = []
         lo, hi = off + 1, off + n
         probes = list(range(lo, hi + 1)) + [lo - 1, hi + 1, 0, hi + 2 + rng.randint(0, 5), max(0, lo - 2)]
+        # large groups: the implementation is asked about every identifier (the property itself is evaluated on all of
+        # them); the model is asked densely around the thresholds only (its cost per question grows with the group)
+        asked = None
+        if given is not None and n > 250:
+            asked = dense_ids(off, n, sh.get('m') or (sh.get('ranges') or [0])[-1])
         for v in probes:
             for lit in (v, -v):
-                back.append((lit, observe(lambda: list(g.to_index(lit))), ask(cmd('group_to_index', shape_sx(sh), off, lit)),
-                             observe(lambda: lit in g)))
+                qi = ask(cmd('group_to_index', shape_sx(sh), off, lit)) if (asked is None or v in asked or not (lo <= v <= hi)) else None
+                back.append((lit, observe(lambda: list(g.to_index(lit))), qi, observe(lambda: lit in g)))
         case['back'] = back
         # probes in and outside the index domain
         prb = []
@@ -397,7 +437,7 @@ def run_groups(ctx, F_classes, ncases):
         case['probes'] = prb
         # wildcard patterns
         pts = []
-        for p in patterns_for(rng, sh, valid, 8 if ctx.tier == 'quick' else 20):
+        for p in patterns_for(rng, sh, valid, 8 if ctx.tier == 'quick' else 20) + [list(x) for x in extra_patterns]:
             q = ask(cmd('group_pattern', shape_sx(sh), off, [Sym('none') if x is None else x for x in p]))
             oi = observe(lambda: as_list(g.indices(*p)))
             if sh['kind'] == 'single' and p:
@@ -432,15 +472,16 @@ def compare_group(ctx, case, replies):
     rep = replies[case['q_describe']]
     rep_fixed = replies[case['q_describe_fixed']]
     key = (descr['cls'], str(sh), descr['label'], off)
+    gstream = case.get('stream', 'groups') + '-' + descr['cls']
     if is_error(rep):
-        ctx.count('groups-' + descr['cls'], key, False, sample=descr)
+        ctx.count(gstream, key, False, sample=descr)
         ctx.violation('correspondence', 'model error', dict(input=descr, model=rep), False, site='model-error', cls=site)
         return
     model_created = rep[0]
     impl_created = case['created']
     # --- creation outcome
     if impl_created[0] != 'ok':
-        ctx.count('groups-' + descr['cls'], key, False, sample=descr)
+        ctx.count(gstream, key, False, sample=descr)
         if impl_created[0] == 'ValueError':
             if model_created != 'ValueError':
                 viol_corr(ctx, 'group creation raises ValueError where the model creates the group', descr, list(impl_created), rep[0], site,
@@ -454,7 +495,7 @@ def compare_group(ctx, case, replies):
             viol_cex(ctx, 'group creation raised %s' % impl_created[1], descr, list(impl_created), site, 'raises-' + impl_created[1])
         return
     if model_created != 'created':
-        ctx.count('groups-' + descr['cls'], key, False, sample=descr)
+        ctx.count(gstream, key, False, sample=descr)
         if model_created == 'Crash' and rep_fixed[0] == 'created':
             rep = rep_fixed     # the defect D2 is repaired in this tree: compare with the repaired model, say nothing
         else:
@@ -462,7 +503,7 @@ def compare_group(ctx, case, replies):
             return
     _, msize, mindices, mids, mlabels = rep
     n = case['size']
-    ctx.count('groups-' + descr['cls'], key, n > 0, sample=descr)
+    ctx.count(gstream, key, n > 0, sample=descr)
     mids = [x[1] if isinstance(x, list) else None for x in mids]
     problems = []
     if n != msize:
@@ -489,7 +530,7 @@ def compare_group(ctx, case, replies):
         if j < len(mlabels) and olab != ('ok', mlabels[j]):
             problems.append(('label', t, olab, mlabels[j]))
     for lit, oidx, q, omem in case['back']:
-        m = replies[q]
+        m = replies[q] if q is not None else None
         m = m[1] if isinstance(m, list) else None
         inside = off + 1 <= abs(lit) <= off + n
         if omem != ('ok', inside):
@@ -508,7 +549,7 @@ def compare_group(ctx, case, replies):
             viol_cex(ctx, 'to_index accepts a literal outside the group', descr, dict(lit=lit, got=list(oidx)), site, 'to_index-accepts')
             break
         got = oidx[1] if oidx[0] == 'ok' else None
-        if got != m:
+        if q is not None and got != m:
             problems.append(('to_index', lit, list(oidx), m))
     for t, obs, q, how in case['probes']:
         m = replies[q]
@@ -654,8 +695,8 @@ def varname_lines(F, cname):
     return names
 
 
-def run_histories(ctx, F_classes, ncases, given=None):
-    rng = ctx.rng
+def run_histories(ctx, F_classes, ncases, given=None, rng=None, stream='histories'):
+    rng = rng or ctx.rng
     hs = []
     reqs = []
     todo = list(given) if given is not None else [None] * ncases
@@ -664,9 +705,10 @@ def run_histories(ctx, F_classes, ncases, given=None):
         cname, C = F_classes[hi % 2]
         dflt_pieces = ['x', ''] if rng.random() < 0.7 else rand_fmt(rng, 1, allow_too_many=False)
         dflt = py_fmt(dflt_pieces)
-        ctx.tally('history length', len(ops))
+        pfx = '' if stream == 'histories' else 'large: '
+        ctx.tally(pfx + 'history length', len(ops))
         for o in ops:
-            ctx.tally('history op', o['op'] + ('/checked' if o.get('check') else '') +
+            ctx.tally(pfx + 'history op', o['op'] + ('/checked' if o.get('check') else '') +
                       ('/' + o['shape']['kind'] if o['op'] == 'new' else ''))
         for flags in VARIANTS:
             reqs.append(cmd('history_run', flags[0], flags[1], flags[2], dflt_pieces, [op_sx(o) for o in ops]))
@@ -716,7 +758,7 @@ def run_histories(ctx, F_classes, ncases, given=None):
         vn = observe(lambda: varname_lines(F, cname))
         dl = observe(lambda: list(F.all_variable_labels()))
         hs.append(dict(descr=dict(cls=cname, default_label_format=dflt, ops=ops), steps=steps, events=events, varnames=vn, default_labels=dl,
-                       nops=len(ops)))
+                       nops=len(ops), stream=stream))
     replies = ctx.model.batch(reqs)
     nv = len(VARIANTS)
     for i, h in enumerate(hs):
@@ -733,7 +775,7 @@ def compare_history(ctx, h, reps):
     rep = reps[0]
     descr = h['descr']
     key = (descr['cls'], str(descr['ops']), descr['default_label_format'])
-    ctx.count('histories-' + descr['cls'], key, h['nops'] >= 2, sample=descr)
+    ctx.count(h.get('stream', 'histories') + '-' + descr['cls'], key, h['nops'] >= 2, sample=descr)
     if is_error(rep):
         ctx.violation('correspondence', 'model error', dict(input=descr, model=rep), False, site='model-error', cls='history')
         return
@@ -847,12 +889,122 @@ def fixed_cases(ctx, F_classes):
     return hs
 
 
+# --------------------------------------------------------------------------
+# large corpus: thresholds, hubs, out-of-order insertion, identifiers beyond 256
+# --------------------------------------------------------------------------
+BIG_OFFSETS = [255, 256, 257, 258, 300, 1000]
+
+
+def hub_shape(rng, kind, n, D, sparse=30, flip=None):
+    """edges of a graph with a hub of degree D on either side, listed in random (non sorted) order -- the order in which
+    build_group inserts them before the group is created.  Returns (shape, wildcard patterns through the hubs)"""
+    verts = list(range(1, n + 1))
+    hu, hv = rng.choice([1, 2, n // 2, n]), rng.choice([1, 3, n // 2 + 1, n])
+    if flip is not None:        # hubs at either end of the numbering, on either side
+        low, high = rng.choice([1, 2, 3]), rng.choice([n - 2, n - 1, n])
+        hu, hv = (low, high) if flip else (high, low)
+    if kind == 'graph':
+        edges = {(min(hu, w), max(hu, w)) for w in rng.sample([x for x in verts if x != hu], D)}
+        while len(edges) < D + sparse:
+            u, v = rng.sample(verts, 2)
+            edges.add((min(u, v), max(u, v)))
+        hv = hu
+    else:
+        edges = {(hu, w) for w in rng.sample(verts, D)} | {(w, hv) for w in rng.sample(verts, D)}
+        target = len(edges) + sparse
+        while len(edges) < target:
+            edges.add((rng.choice(verts), rng.choice(verts)))
+    order = [list(e) for e in edges]
+    rng.shuffle(order)
+    if kind in ('bip', 'sparse'):
+        sh = dict(kind=kind, L=n, R=n, edges=order)
+    elif kind == 'graph':
+        sh = dict(kind='graph', n=n, edges=order)
+    else:
+        sh = dict(kind='di', n=n, edges=order, sortby=rng.choice(['pred', 'succ']))
+    some = rng.choice(order)
+    pats = [[hu, None], [None, hv], [None, hu], [hv, None], [some[0], None], [None, some[1]], [None, None], [n, None], [None, n],
+            [n + 1, None], [None, 0]]
+    return sh, pats
+
+
+def dense_ids(off, n, period):
+    """identifiers of a large group about which the model is asked: both ends, every threshold (as a position in the group
+    and as an absolute identifier), both sides of every row boundary"""
+    pos = {0, n - 1}
+    for t in (16, 64, 128, 129, 256, 257, 300, 512, 1000, 1024):
+        pos |= {t - 2, t - 1, t, t + 1}
+        pos |= {t - off - 2, t - off - 1, t - off, t - off + 1}
+    if period and period > 0:
+        for k in range(0, n + 1, period):
+            pos |= {k - 2, k - 1, k, k + 1}
+    return {off + 1 + j for j in pos if 0 <= j < n}
+
+
+def large_group_cases(rng, tier):
+    quick = tier == 'quick'
+    out = []
+
+    def off():
+        return rng.choice(BIG_OFFSETS)
+    for (n, m) in [(2, 128), (2, 129), (3, 130), (1, 300), (1, 257)] + ([] if quick else [(1, 128), (4, 129), (2, 300), (3, 300), (129, 2), (257, 1), (17, 16)]):
+        out.append((dict(kind='umap', n=n, m=m), off(), [[1, None], [None, m], [None, 128], [None, 129], [n, None], [None, m + 1]]))
+    out.append((dict(kind='umap', n=2, m=129), 0, [[2, None], [None, 129]]))
+    for rep in range(1 if quick else 4):
+        for ki, kind in enumerate(('bip', 'sparse', 'graph', 'di', 'di')):
+            n = rng.choice([135, 150, 200, 300])
+            sh, pats = hub_shape(rng, kind, n, rng.choice([129, 130]), flip=(ki + rep) % 2 == 0)
+            out.append((sh, off() if rng.random() < 0.8 else 0, pats))
+        sh, pats = hub_shape(rng, rng.choice(['bip', 'sparse', 'graph', 'di']), rng.choice([20, 70]), 17, sparse=5)
+        out.append((sh, off(), pats))
+    for o in BIG_OFFSETS:
+        out.append((dict(kind='single'), o, []))
+    blocks = [[257], [2, 129], [129, 2], [16, 17], [17, 16], [3, 5, 17], [4, 64], [257, 1], [128], [2, 2, 65]]
+    words = [('combinations', 17, 2), ('permutations', 17, 2), ('words', 17, 2), ('words', 2, 8), ('combinations_with_replacement', 16, 2),
+             ('combinations', 257, 1), ('permutations', 16, 2), ('combinations', 9, 3), ('words', 16, 2)]
+    bins = [(1, 257), (2, 1025), (33, 5), (129, 2), (17, 16), (17, 17), (3, 256), (1, 1000)]
+    for rs in (rng.sample(blocks, 4) if quick else blocks):
+        out.append((dict(kind='block', ranges=rs), off(), [[None] * (len(rs) - 1) + [rs[-1]], [rs[0]] + [None] * (len(rs) - 1)]))
+    for (wk, n, k) in (rng.sample(words, 4) if quick else words):
+        out.append((dict(kind='words', wordtype=wk, n=n, k=k), off(), [[n] + [None] * (k - 1), [None] * (k - 1) + [n]]))
+    for (n, m) in (rng.sample(bins, 3) if quick else bins):
+        out.append((dict(kind='binmap', n=n, m=m), off(), [[n, None], [None, 0]]))
+    return out
+
+
+def large_histories(rng, tier):
+    single = lambda nm: dict(op='new', shape=dict(kind='single'), pieces=[nm])       # noqa
+    hs = [
+        [dict(op='raise', k=256), single('X'), single('Y'), dict(op='clause', lits=[257, -258], check=True), dict(op='raise', k=300),
+         single('Z'), dict(op='new', shape=dict(kind='block', ranges=[2, 129]), pieces=['b_{', ',', '}']), single('W')],
+        [dict(op='raise', k=255), single('A'), single('B'), single('C'), dict(op='clause', lits=[-256, 257, 258], check=True)],
+        [dict(op='raise', k=257), single('X')],
+        [dict(op='new', shape=dict(kind='umap', n=1, m=65), pieces=['f(', ')=', '']), single('Y'), dict(op='clause', lits=[66, -1], check=True),
+         dict(op='raise', k=300), single('Z')],
+        [dict(op='clause', lits=[300, -2], check=False), single('X'), dict(op='new', shape=dict(kind='block', ranges=[257]), pieces=['y_', ''])],
+        [dict(op='new', shape=dict(kind='block', ranges=[256]), pieces=['y_', '']), single('X'), single('Y'), dict(op='raise', k=513), single('Z')],
+    ]
+    for _ in range(2 if tier == 'quick' else 12):
+        sh, _p = hub_shape(rng, rng.choice(['bip', 'sparse', 'graph']), rng.choice([135, 150]), 129, sparse=10)   # (di: the model's labels need ~25 s)
+        hs.append([dict(op='raise', k=rng.choice([0, 255, 256, 257])), dict(op='new', shape=sh, pieces=['e(', ',', ')']), single('S'),
+                   dict(op='clause', lits=[rng.choice([1, 256, 257, 300]), -rng.choice([129, 258])], check=True), single('T')])
+    return hs
+
+
 def run(ctx):
     import_impl()
     from cnfgen.formula.cnf import CNF
     from cnfgen.formula.opb import OPB
     F_classes = [('CNF', CNF), ('OPB', OPB)]
     quick = ctx.tier == 'quick'
+    # ---- large corpus first (its own generator derived from the seed: the streams below keep their sequence)
+    lrng = random.Random('%d-c11-large' % ctx.seed)
+    big = large_group_cases(lrng, ctx.tier)
+    run_groups(ctx, F_classes, 0, given=big, rng=lrng, stream='groups-large')
+    if not quick:
+        run_groups(ctx, F_classes[::-1], 0, given=big, rng=lrng, stream='groups-large')
+    lh = large_histories(lrng, ctx.tier)
+    run_histories(ctx, F_classes, 0, given=lh if quick else [h for h in lh for _ in (0, 1)], rng=lrng, stream='histories-large')
     run_groups(ctx, F_classes, 2400 if quick else 24000)
     run_bitlength(ctx, CNF)
     run_histories(ctx, F_classes, 0, given=[h for h in fixed_cases(ctx, F_classes) for _ in (0, 1)])
